@@ -202,6 +202,10 @@ def run(ctx, shared=True):
         reuse(ctx, c11.run, ("C11.prime",), "C14res", "resume-route rule shared with C11: the population a resumed instance continues from is the checkpoint read in the same pass as the flow it loaded, "
               "and it is forwarded exactly when the caller gave none")
     if shared:
+        from . import c04 as _c04
+        reuse(ctx, _c04.run, ("C04.wire",), "C14wire", "wiring rule shared with C04: the configuration comes back from the file with its mappings in HDF5 (sorted) key order; transforms that "
+              "take bounds in mapping order instead of parameter order are rebuilt with another parameter's bounds after resume_from_file, so the reloaded instance contradicts the checkpoint next to it")
+    if shared:
         reuse(ctx, c19.run, ("C19.ac",), "C14ctx", "context rule shared with C19: checkpoint defaults left behind after the with-block make later calls write to the old file")
     cd = A.methods["config_dict"]
     reads = any(isinstance(n, ast.Attribute) and n.attr == "_last_sampler_type" for n in ast.walk(cd.node))
@@ -252,6 +256,9 @@ MUTANTS += [
       more=[("obj = self(**config)\n", "obj = self(**config)\n        if \"data_transform\" in flow_grp:\n            obj.data_transform = data_transform\n")]),
     M("checkpoint of unchanged length not rewritten", "src/aspire/utils.py", "target[dsetname].resize((bdata.size,))\n    target[dsetname][:] = bdata", "target[dsetname].resize((bdata.size,))\n        target[dsetname][:] = bdata", "C14blob"),
     M("flow written once per context", _A, "if self.flow is not None:\n                    # Always store", "if self.flow is not None and not saved_flow:\n                    # Always store", "C14.flow"),
+]
+MUTANTS += [
+    M("bounds stacked in mapping order", "src/aspire/transforms.py", "[self.prior_bounds[p][0] for p in parameters]", "[v[0] for v in self.prior_bounds.values()]", "C14wire.wire"),
 ]
 NEUTRALS = [
     M("flow existence test mirrored", _A, "if self.flow is not None:\n                    # Always store", "if not (self.flow is None):\n                    # Always store"),
